@@ -79,6 +79,31 @@ def generate(tier, rng):
             for x in dis:
                 c.op(e.id, 'table new get:%s' % x, 'disabled-index')
                 c.op(e.id, 'table new set:%s:1' % x, 'disabled-index-mut')
+    # identifiers whose snake names differ only by an underscore before a digit run, acronyms, digits: one distinct
+    # field per enabled variant (names asked from the model; a naming difference is a compile error in that enum)
+    from .. import leanside
+    from ..spec import unhx
+    extra = []
+    for idents in (['V1', 'V_1', 'V12'], ['Http2', 'Http_2', 'Http22'], ['A1b2', 'A_1b2', 'A1_b2'], ['Utf8', 'Utf16', 'Utf_8'], ['Rgb8To16', 'Rgb8to16', 'Rgb_8To16']):
+        e = ESpec(id='c10_%d' % k, name='EnC10x%d' % k, derives=['EnumTable'], feats=['table'])
+        e.extra['base_derives'] = ('Debug', 'PartialEq', 'Clone', 'Copy')
+        e.variants = [VSpec(ident=i) for i in idents]
+        e.extra['shape'] = 'near-colliding-snake-names'
+        k += 1
+        extra.append(e)
+    lines = []
+    for e in extra:
+        lines += e.model_lines()
+    lines += ['op %s tablefields' % e.id for e in extra]
+    for e, o in zip(extra, leanside.run_driver(lines)):
+        if o.startswith('CE:'):
+            continue  # the model says two snake names coincide: rustc rejects the struct (duplicate field); not a domain enum
+        e.extra['table_fields'] = [unhx(t).decode() for t in o.split(' ') if t.startswith('x')]
+        c.add(e)
+        keys = [hx(v.ident) for v in e.variants]
+        c.op(e.id, 'tablefields', 'field-names')
+        c.op(e.id, 'table closure dump %s' % ' '.join('get:%s' % x for x in keys), 'constructor')
+        c.op(e.id, 'table new %s dump' % ' '.join('set:%s:%d' % (x, i + 1) for i, x in enumerate(keys)), 'exhaustive-writes-3')
     return c
 
 
